@@ -17,7 +17,7 @@ import (
 
 func main() {
 	run := ev.Start("C16", "exploration")
-	run.SetRule("part 1: random histories (6-35 ops) of device_authorization / approve(user) / deny / expire / poll over clients {dev, dev2 confidential+Basic; devpub public; devjwt private_key_jwt; web without the device grant; ghost unregistered}, each executed on both routers in a fresh world; every device-authorization response and every poll is an evaluation; distinct = distinct vectors (router, code kind, own/foreign, owner kind>presenter kind, credential kind/standing, model state incl. expired / earlier denial, storage behaviour, poll-again) for polls and (router, client kind, credential kind, number of scopes) for device authorizations. " +
+	run.SetRule("part 1: random histories (6-35 ops) of device_authorization / approve(user) / deny / expire / poll over clients {dev, dev2 confidential+Basic; devpub public; devjwt private_key_jwt; web without the device grant; ghost unregistered}, polls by the own / a foreign / an unauthenticated client (also a foreign client proving its own identity while the form names the owner), with unknown codes (garbage, the user code, truncated, extended, case-flipped, absent) and under storage faults (time-out injected or through an expired request context, plain error, server_error, cancelled context), each history executed on both routers in a fresh world; every device-authorization response and every poll is an evaluation; distinct = distinct vectors (router, code kind, own/foreign, owner kind>presenter kind, credential kind/standing, model state incl. expired / earlier denial, storage behaviour, poll-again) for polls and (router, client kind, credential kind, number of scopes) for device authorizations. " +
 		"part 2: generated device-authorization configurations, 2 requests + pending poll + approval through the user code + poll on each router; distinct = (router, alphabet kind, amount bucket, dash class, lifetime, poll interval, form path, issuer mode, form-URL knob, client kind)")
 	run.Assume(
 		"vstore policy (as the repository's example storage): GetDeviceAuthorizatonState answers only for the client id it is asked with, so 'a code of another client is refused' is decided by what client id the library hands to the storage",
